@@ -183,6 +183,110 @@ theorem C20_dup_last_same_root (node : Bytes → Bytes → Bytes) (a b c : Bytes
     computeMerkleRoot node [a, b, c] = computeMerkleRoot node [a, b, c, c] := rfl
 
 
+/-! ### After `fixes/C20-header-count-wrap.patch` (`Variant.countFixed`): only the key-encoding hypothesis remains -/
+
+theorem C20_header_reencode_countFixed_partial (K : Keys) (s : Src) (w : s.wf) (h : Header) (s' : Src)
+    (hp : parseHeader .countFixed K s = .ok h s') (hcanon : h.bookkeepers = h.bkRaw) :
+    serHeader h = consumed s s' := by
+  obtain ⟨_, post⟩ := header_post_of_ok w hp
+  rw [← seg_eq_consumed]
+  exact header_reencode post hcanon rfl rfl
+
+theorem C20_reencode_countFixed_partial (K : Keys) (R : Rlp) (hR : R.canonical) (hs : Hashes) (s : Src) (w : s.wf)
+    (b : Block) (s' : Src) (hp : parseBlock .countFixed K R hs s = .ok b s')
+    (hcanon : b.header.bookkeepers = b.header.bkRaw) : serBlock b = consumed s s' := by
+  obtain ⟨_, s1, adv1, adv2, hpost, hlt, _, _, hseg⟩ := block_post_of_ok w hp
+  rw [← seg_eq_consumed, seg_trans adv1 adv2, hseg hR, ← header_reencode hpost hcanon rfl rfl]
+  unfold serBlock
+  rw [Nat.mod_eq_of_lt (by omega), List.append_assoc]
+
+/-! ### `RawHeader.Deserialization` -/
+
+theorem C20_rawheader_total (V : Variant) (s : Src) (w : s.wf) : parseRawHeader V s ≠ .panic := by
+  have := parseRawHeader_spec V s w
+  unfold SpecAt at this
+  intro h; rw [h] at this; exact this
+
+/-- `RawHeader.Payload` is exactly the consumed bytes (so `RawHeader.Serialization` reproduces the input) -/
+theorem C20_rawheader_payload (V : Variant) (s : Src) (w : s.wf) (r : RawHeader) (s' : Src)
+    (hp : parseRawHeader V s = .ok r s') :
+    r.payload = consumed s s' ∧ s'.bs = s.bs ∧ s.off ≤ s'.off ∧ s'.off ≤ s.bs.length := by
+  have := parseRawHeader_spec V s w
+  unfold SpecAt at this
+  rw [hp] at this
+  obtain ⟨adv, hpl⟩ := this
+  exact ⟨hpl, adv.1, adv.2.1, by have := adv.2.2; rw [adv.1] at this; exact this⟩
+
+/-! ### `CrossChainMsg.Deserialization` -/
+
+/-- the repaired decoder never panics -/
+theorem C20_ccm_total (V : Variant) (hV : V ≠ .asShipped) (s : Src) (w : s.wf) : parseCCMsg V s ≠ .panic := by
+  have : SpecAt (parseCCMsg V) s (fun _ _ => True) := by
+    unfold parseCCMsg
+    apply spec_bind' (parseCCMPrefix_spec s w)
+    intro a s1 adv1 _
+    exact spec_true (parseCCMRest_spec V a (fun h => absurd h hV) s1 (adv1.wf w))
+  unfold SpecAt at this
+  intro h; rw [h] at this; exact this
+
+/-- the shipped decoder panics only through `make([][]byte, 0, sigLen)`: the four leading fields were read and the
+count times 24 exceeds `maxAlloc` -/
+theorem C20_ccm_total_partial (s : Src) (w : s.wf) (hp : parseCCMsg .asShipped s = .panic) :
+    ∃ a s1, parseCCMPrefix s = .ok a s1 ∧ a.2.2.2 * sliceHeaderSize > maxAlloc := by
+  have hpre := parseCCMPrefix_spec s w
+  unfold SpecAt at hpre
+  unfold parseCCMsg at hp
+  rw [bind_eval] at hp
+  cases hq : parseCCMPrefix s with
+  | ok a s1 =>
+    rw [hq] at hp hpre
+    simp only at hp
+    refine ⟨a, s1, rfl, ?_⟩
+    by_cases hbig : makeslicePanics a.2.2.2 = true
+    · unfold makeslicePanics at hbig; simpa using hbig
+    · exfalso
+      have := parseCCMRest_spec .asShipped a (fun _ => by simpa using hbig) s1 (hpre.1.wf w)
+      unfold SpecAt at this
+      rw [hp] at this
+      exact this
+  | err e => rw [hq] at hp; simp at hp
+  | panic => rw [hq] at hpre; exact absurd hpre (by simp)
+
+/-- **Witness** (`crosschainmsg-count-makeslice-panic`): 37 arbitrary bytes followed by the count 2^63 -/
+theorem C20_ccm_asShipped_panics :
+    (match parseCCMsg .asShipped ⟨List.replicate 37 0 ++ [0xff, 0, 0, 0, 0, 0, 0, 0, 0x80], 0⟩ with
+      | .panic => true
+      | _ => false) = true := by decide +kernel
+
+/-- an accepted message re-encodes to the consumed bytes (all variants) -/
+theorem C20_ccm_reencode (V : Variant) (s : Src) (w : s.wf) (m : CCMsg) (s' : Src)
+    (hp : parseCCMsg V s = .ok m s') : serCCMsg m = consumed s s' := by
+  have hpre := parseCCMPrefix_spec s w
+  unfold SpecAt at hpre
+  unfold parseCCMsg at hp
+  rw [bind_eval] at hp
+  cases hq : parseCCMPrefix s with
+  | ok a s1 =>
+    rw [hq] at hp hpre
+    simp only at hp
+    obtain ⟨adv1, hseg1⟩ := hpre
+    have hok : V = .asShipped → makeslicePanics a.2.2.2 = false := by
+      intro hV
+      subst hV
+      cases hb : makeslicePanics a.2.2.2
+      · rfl
+      · unfold parseCCMRest at hp
+        simp [hb] at hp
+    have := parseCCMRest_spec V a hok s1 (adv1.wf w)
+    unfold SpecAt at this
+    rw [hp] at this
+    obtain ⟨adv2, hseg2, hl, hv, hh, hr⟩ := this
+    rw [← seg_eq_consumed, seg_trans adv1 adv2, hseg1, hseg2]
+    unfold serCCMsg serList
+    rw [hl, hv, hh, hr]
+  | err e => rw [hq] at hp; simp at hp
+  | panic => rw [hq] at hp; simp at hp
+
 /-! ### Witnesses: the as-shipped decoder violates the full statement (these are also the replay lines of the two
 recorded findings), and the hypotheses of the theorems above are satisfiable -/
 
